@@ -5,6 +5,7 @@ from .common import Laws, run_subprocess, main_entry
 from .. import inputs
 
 SPEC = dict(
+    technique='Lean 4 proof (Hamilton and dual-quaternion algebra on the regenerated model) + float monitor',
     lean_modules=['SmVerif.Props.C12', 'SmVerif.Props.Delegation', 'SmVerif.Props.DualQuat'],
     groups=['Quaternions', 'Quats', 'DualQuat'],
     partial=['exp/log of Quaternion and the dual-quaternion laws are class-level: checked by the float '
